@@ -70,6 +70,14 @@ def definitions(tier):
             out.append(D(mod('trans', D(mod(c1, a, b)), x=0.3)))
             out.append(D(mod(c1, mod('trans', a, x=0.3), b)))
     out.append(D(('>', 0.0, mod('sum', plain[0], plain[1])), ('>=', 2.05, mod('product', plain[3], plain[1]))))
+    # structured deep chains (depth 4 and 5) and wide modifiers (arity 5)
+    for k in range(8):
+        a, b, c_, d_, e_ = [plain[(k + j) % 5] for j in range(5)]
+        out.append(D(mod('sum', mod('product', mod('pow', mod('trans', D(mod('sum', a, b)), x=0.25), plain[3]), c_), d_)))
+        out.append(D(mod('product', plain[3], mod('sum', a, mod('product', b, mod('sum', c_, mod('trans', d_, x=-0.25)))))))
+        out.append(D(mod('sum', a, b, c_, d_, e_)))
+        out.append(D(mod('product', a, plain[3], c_, plain[4], e_)))
+        out.append(D(('>', 0.0, mod('sum', a, D(('>=', 1.0, mod('product', b, D(('>', 2.0, mod('sum', c_, d_)))))))), ('>=', 3.0, e_['ranges'][0][2])))
     if tier != 'quick':
         s3 = plain[:3]
         for c1, c2, c3 in itertools.product(('sum', 'product', 'pow'), repeat=3):
@@ -451,8 +459,37 @@ def variants(d, seed):
         k = rsup.index('')
         rsup = [rsup[0]] + rsup[1:k][::-1] + rsup[k:]
     out.append(('section order', '%s\n\n[Pair]\nA-B : %s\n%s\n\n[Tabulation]\ntarget : LAMMPS\nnr : 3\ncutoff : 2.0\n' % ('\n'.join(rsup), base, extra_pair)))
+    out.append(('number spellings', canonical.replace('A-B : %s\n' % base, 'A-B : %s\n' % respell(base))))
     out.append(('blank lines and trailing blanks', canonical.replace('\n[Pair]\n', '\n\n\n[Pair]   \n').replace('A-B : %s\n' % base, 'A-B : %s   \n\n' % base)))
     return out
+
+
+def respell(text):
+    """the same numbers written differently: scientific notation, explicit plus sign, trailing / leading decimal point"""
+    import re
+    k = [0]
+
+    def one(m):
+        tok = m.group(0)
+        k[0] += 1
+        try:
+            if re.match(r'^[+-]?\d+$', tok):
+                return ('+' + tok) if (k[0] % 2 and not tok.startswith(('-', '+'))) else tok       # stays an integer
+            x = float(tok)
+        except ValueError:
+            return tok
+        style = k[0] % 4
+        if style == 0:
+            out = '%.17e' % x
+        elif style == 1:
+            out = repr(x) if x < 0 else '+' + repr(x)
+        elif style == 2:
+            out = repr(x)[:-1] if repr(x).endswith('.0') else repr(x).upper()
+        else:
+            out = repr(x)[1:] if repr(x).startswith('0.') else ('-' + repr(x)[2:] if repr(x).startswith('-0.') else repr(x))
+        assert float(out) == x
+        return out
+    return re.sub(r'(?<![A-Za-z_.\w])[+-]?(?:\d+\.?\d*|\.\d+)(?:[eE][+-]?\d+)?(?![A-Za-z_\w.])', one, text)
 
 
 def run_formatting(case):
